@@ -314,9 +314,6 @@ class MemoryZone(object):
             self.__update_cache()
             return
         if j == i:
-            ii = self._map[i].copy()
-            ii.trim(z.vaddr)
-            # h.insert(0,ii)
             Z = self._map[i].write(z.vaddr, z.data.val, z.data.endian)
             i += 1
             for newz in Z:
@@ -330,9 +327,6 @@ class MemoryZone(object):
         # delete & update every overwritten zones
         # by adjusting [i,j]:
         if z.end in self._map[j]:
-            jj = self._map[j].copy()
-            jj.setlen(z.end - z.vaddr)
-            # h.insert(0,jj)
             self._map[j].trim(z.end)
         else:
             j += 1
@@ -340,9 +334,6 @@ class MemoryZone(object):
         if i is None:
             i = -1
         elif z.vaddr <= self._map[i].end:
-            ii = self._map[i].copy()
-            ii.trim(z.vaddr)
-            # h.insert(0,ii)
             # overright data:
             Z = self._map[i].write(z.vaddr, z.data.val, z.data.endian)
         i += 1
